@@ -169,7 +169,7 @@ def register_rules(R, pfx="C06"):
         if not ok:
             R.viol(pfx + ".check_op.result", "signer-identity", "permission and signature are not both checked for op.source", cro, cro.lines[0])
         R.inst(pfx + ".check_op.result", "K6 flows-to", "check_user_permissions(op.source) and op.verify_signature(&op.source) concern the same signer", 2, ok)
-    R.gate(pfx + ".user_perm", RG + "::check_user_permissions", RetSink("Ok"), [[CallGuard(["ant_registers::permissions::Permissions::can_write"], ("true",), "permissions.can_write(requester)")]],
+    R.gate(pfx + ".user_perm", RG + "::check_user_permissions", RetSink("Ok", computed=True), [[CallGuard(["ant_registers::permissions::Permissions::can_write"], ("true",), "permissions.can_write(requester)")]],
            descr="check_user_permissions is Ok only for a listed writer")
     # ... and can_write itself: true only for an open register or for a user the writers set contains (an empty writers list
     # grants nothing)
@@ -185,7 +185,7 @@ def register_rules(R, pfx="C06"):
         R.gate(pfx + ".can_write", cw, RetSink("true", computed=True), [[g_open, g_in]], descr="can_write is true only for AnyoneCanWrite or a listed writer")
     vim = R.body(pfx + ".mergeable", RG + "::verify_is_mergeable")
     if vim is not None:
-        R.gate(pfx + ".mergeable", vim, RetSink("Ok"),
+        R.gate(pfx + ".mergeable", vim, RetSink("Ok", computed=True),
                [[CmpGuard(call_results([RG + "::address"]), call_results([RG + "::address"]), "Eq", "same address")],
                 [CmpGuard(lambda b: {d for d, r, p in field_reads(b, "permissions")}, lambda b: {d for d, r, p in field_reads(b, "permissions")}, "Eq", "same permissions")]],
                descr="registers are mergeable only with equal address and permissions")
@@ -325,7 +325,7 @@ def op_rules(R, pfx="C06"):
     F = R.F
     vs = R.body(pfx + ".op.sig", ROP + "::verify_signature")
     if vs is not None:
-        R.gate(pfx + ".op.sig", vs, RetSink("Ok"), [[CallGuard(["blsttc::PublicKey::verify"], ("true",), "pk.verify(signature, bytes)")]],
+        R.gate(pfx + ".op.sig", vs, RetSink("Ok", computed=True), [[CallGuard(["blsttc::PublicKey::verify"], ("true",), "pk.verify(signature, bytes)")]],
                descr="verify_signature is Ok only if the BLS verification holds")
         prep(vs)
         ta = Taint(vs, through="all")
